@@ -142,7 +142,8 @@ Built == Compose(comp, Body)
 Init == comp \in Comps /\ ct \in CTs /\ names = <<>> /\ res = [k |-> "none"]
 AddItem == /\ res.k = "none" /\ Len(names) < MaxItems /\ \E n \in ItemNames : names' = Append(names, n)
            /\ UNCHANGED <<comp, ct, res>>
-Finish == /\ res.k = "none" /\ Len(names) >= 1
+\* (a body may have no item at all: an empty block, an empty partial)
+Finish == /\ res.k = "none"
           /\ res' = Run(Pre \o Built.prog \o Post, WithHelpers(DataOf(ct)), WithSub(Built.parts), "")
           /\ UNCHANGED <<comp, ct, names>>
 Next == AddItem \/ Finish
@@ -171,7 +172,9 @@ EmitOnce ==
                                        shape |-> comp \o ":" \o ct \o ":" \o JoinNames(names), expect |-> Expect(res)]))
 EmitTwice ==
             LET twice == Pre \o Built.prog \o <<Text(<<"/">>)>> \o Built.prog \o Post IN
-               PrintT("CASE " \o ToJson([gen |-> "GenCompose", srcs |-> [twice |-> Unparse(twice)],
+               \* (in these cases tm is not Set on the context: the root is built around a context.Context that carries it,
+               \*  plush.NewContextWithContext -- every scope of every mechanism must still see it)
+               PrintT("CASE " \o ToJson([gen |-> "GenCompose", srcs |-> [twice |-> Unparse(twice)], wrapped |-> <<"tm">>,
                                        data |-> DataOf(ct), parts |-> PartToks(WithSub(Built.parts)),
                                        shape |-> comp \o ":" \o ct \o ":" \o JoinNames(names) \o ":twice",
                                        expect |-> Expect(Run(twice, WithHelpers(DataOf(ct)), WithSub(Built.parts), ""))]))
